@@ -10,9 +10,13 @@ from ..core import Machinery, chunks, run_workers
 CFG = "CONSTANT MaxT = %d\nCONSTANT MaxEv = %d\nINIT Init\nNEXT Next\nINVARIANT Emit\n"
 
 
-def _cols(rng, card, ncol, den=10):
+def _cols(rng, card, ncol, den=10, zeros=False):
     cols = []
     for _ in range(ncol):
+        if zeros and rng.random() < 0.4:        # deterministic column (exact zeros in the messages)
+            k = rng.randrange(card)
+            cols.append([den if i == k else 0 for i in range(card)])
+            continue
         cuts = sorted(rng.sample(range(1, den), card - 1))
         cols.append([b - a for a, b in zip([0] + cuts, cuts + [den])])
     return [[cols[j][r] for j in range(ncol)] for r in range(card)]
@@ -48,20 +52,21 @@ def make_templates(rng, n, max_vars=3, ternary=False, regular=True):
             if not any(inter.values()):
                 inter[vs[0]] = [vs[0]]
         cpd0, cpd1 = {}, {}
+        zeros = (k % 3 == 2)
         for v in vs:
             p0 = list(intra[v])
             rng.shuffle(p0)
             nc = 1
             for p in p0:
                 nc *= len(dom[p])
-            cpd0[v] = {"parents": p0, "den": 10, "tab": _cols(rng, len(dom[v]), nc)}
+            cpd0[v] = {"parents": p0, "den": 10, "tab": _cols(rng, len(dom[v]), nc, zeros=zeros)}
             if inter[v]:
                 p1 = [[u, 0] for u in inter[v]] + [[u, 1] for u in intra[v]]
                 rng.shuffle(p1)
                 nc = 1
                 for p, _ in p1:
                     nc *= len(dom[p])
-                cpd1[v] = {"parents": p1, "den": 10, "tab": _cols(rng, len(dom[v]), nc)}
+                cpd1[v] = {"parents": p1, "den": 10, "tab": _cols(rng, len(dom[v]), nc, zeros=zeros)}
             else:
                 cpd1[v] = {"parents": [[p, 1] for p in p0], "den": 10, "tab": cpd0[v]["tab"]}
         out.append({"id": k + 1, "vars": vs, "dom": dom, "cpd0": cpd0, "cpd1": cpd1, "regular": regular,
